@@ -62,7 +62,7 @@ def jobs(tier, seed):
             js.append(Job(f"C20/item/{cls}/{od}", "contracts.C20:job_item", dict(cls=cls, with_objdict=od, seed=seed, timeout_s=t)))
     js.append(Job("C20/schedules_str", "contracts.C20:job_schedules_str", dict(seed=seed, timeout_s=t)))
     from .C02 import e2_jobs
-    js += e2_jobs("C20", ["contracts.C20_e2:AllExpansion"], tier, seed)
+    js += e2_jobs("C20", ["contracts.C20_e2:AllExpansion", "contracts.C20_e2:CalcProbDist"], tier, seed)
     for L in range(0, 5 if tier == "quick" else 6):
         js.append(Job(f"C20/order/{L}", "contracts.C20:job_order", dict(L=L, seed=seed, timeout_s=t)))
     shapes = C.schedule_shapes(tier)
@@ -80,5 +80,5 @@ def jobs(tier, seed):
 
 CLAIM = {'engine': 'E1-pyvc + E2-symtwin', 'level': 'proof',
  'text': 'VCs generated from the AST of Experiment._validate_schedule_item, _validate_schedule_order, _validate_schedules, the four list setters and the four tomography classes\' _validate_schedules: accepted <=> well formed (spec written from the property), rejected only with the schedule-item / schedule-order error, item error iff an item is invalid, setters keep the old list on rejection and route the new list to its own slot; for all list sizes, all integer indices, all kind strings (symbolic string with equality only) and every malformed-item class, for schedules of length <= 4 (5 thorough). Lemma by z3: Experiment-WF and tomography-level acceptance and the class\'s list sizes imply exactly the class\'s schedule shape.',
- 'note': 'Unbounded in values; schedule length bounded by the property\'s own bound (loops over a schedule are unrolled). _validate_schedules and the setters are verified modularly against the callee contracts. Executability of accepted schedules is covered by C08 (the circuit statistics of every accepted schedule shape are computed and proved). Non-sequence schedules are outside the property\'s notion of schedule.',
+ 'note': 'Unbounded in values; schedule length bounded by the property\'s own bound (loops over a schedule are unrolled). _validate_schedules and the setters are verified modularly against the callee contracts. Executability: Experiment.calc_prob_dist is under an E2 contract on the three accepted schedule shapes (state-povm, state-gate-povm, state-mprocess-povm) with a symbolic state in the regular regime (all probabilities >= 2e-8): Born distribution in circuit order, normalised, and a None placeholder at any referenced position is rejected with ValueError naming list and index; the circuit statistics of every tomography schedule are additionally proved under C08. Non-sequence schedules are outside the property\'s notion of schedule.',
  'technique': 'contract-based deductive verification (AST->VC, callee contracts, z3; the string form of the schedules argument and its expansion by the four tomography constructors executed in the symbolic twin)'}
